@@ -89,6 +89,8 @@ def run(cx, tier='quick'):
         if t_ in ('Ord', 'PartialOrd') and sh_ == 'enum':
             _sum_ord_enum(cx, fn_, sub, f_, t_ == 'PartialOrd')
     rep.merge(sub)
+    from .own import include_generic_rules as _igr
+    _igr(cx, rep, ['::ord::', '::partial_ord::'])
     return rep
 
 
